@@ -209,7 +209,8 @@ partial def loop (h : IO.FS.Stream) (out : IO.FS.Stream) (c : Conf) : IO Unit :=
     | [_, got] =>
       match C17.parseEnv c.w got with
       | some e =>
-        let bad := C17.checkParam e
+        let bad := C17.checkParam e ++
+          C18.checkEdAgainstTable ((e.kv.lookup "id").bind String.toNat? |>.getD 0) e.c.p e.c.a e.c.d e.g.1 e.g.2 e.r e.h
         out.putStrLn (if bad.isEmpty then "ok ed_param" else "FAIL S model=[] spec=[" ++ String.intercalate ";" bad ++ "] got=[" ++ got ++ "]")
         loop h out { c with ed := some e }
       | none =>
